@@ -272,7 +272,10 @@ def _range(dom, args, kw):
         return list(range(*args))
     if len(args) == 1:
         return RangeV(args[0])
-    raise Unsupported("range with symbolic start/step")
+    step = args[2] if len(args) > 2 else 1
+    if isinstance(step, int) and not isinstance(step, bool) and step != 0:
+        return RangeV(args[0], args[1], step)
+    raise Unsupported("range with a symbolic step")
 
 
 @model("zip")
@@ -557,6 +560,10 @@ def _astype(dom, args, kw):
     a = args[0]
     c = dom.run.heap[a.ref]
     tag = dom.run.ghost.get("dtype", {}).get(a.ref, "float64")
+    want = args[1] if len(args) > 1 else kw.get("dtype")
+    want = want.name if isinstance(want, LibFn) else want
+    if want not in ("float", "float64", "np.float64", None):
+        raise Unsupported(f"astype to {want!r}")
     if kw.get("copy", True) is not True:
         if kw.get("copy") is False and tag == "float64":
             return a                    # numpy: no copy when the dtype already matches -> the same array object
@@ -1263,3 +1270,15 @@ def _dq_copy(dom, args, kw):
     if isinstance(c, list):
         return dom.run.alloc_deque(list(c))
     return dom.run.alloc_deque(SymDeque(c.a, c.lo, c.hi))
+
+
+@model("np.issubdtype")
+def _issubdtype(dom, args, kw):
+    a, b = args
+    name = b.name if isinstance(b, LibFn) else str(b)
+    if isinstance(a, str):
+        if name.endswith("floating"):
+            return a.startswith("float")
+        if name.endswith("integer"):
+            return a.startswith("int")
+    raise Unsupported("np.issubdtype on symbolic dtypes")
